@@ -210,7 +210,10 @@ func (st step) String() string {
 	return fmt.Sprintf("{state %d asks %d: verify(%d->%d) %s lie=%v accepted=%v}", st.from, st.to, st.src, st.tgt, st.branch, st.lieSrc, st.accepted)
 }
 
-const kBlLeaf = "K01b-dualproof-linear-branch-unbound-tree-leaf"
+const (
+	kBlLeaf = "K01b-dualproof-linear-branch-unbound-tree-leaf"
+	kBlLag  = "K01h-dualproof-linear-branch-lagging-tree-unbound"
+)
 
 // session: the client of pkg/client (state = last verified tx; direction of the proof chosen by comparing ids).
 type session struct {
@@ -399,14 +402,20 @@ func TestEquivocationSessions(t *testing.T) {
 			for _, p := range fresh {
 				reached[p] = true
 				if st.branch == "linear" {
-					// known class: source >= target.BlTxID: neither TargetBlTxAlh nor the linear-advance chain is tied to the source Alh
-					if !vk.Excluded(kBlLeaf) {
+					// source >= target.BlTxID: neither TargetBlTxAlh nor the linear-advance chain is tied to the source Alh.
+					// source == target.BlTxID is K01b (repaired: TargetBlTxAlh must equal the source Alh); source > target.BlTxID
+					// (only possible when binary linking lags) is K01h: the proof format carries no linear proof target.BlTxID -> source
+					id, tag := kBlLag, "K01h"
+					if st.src == e.tx(st.tgt).hdr.BlTxID {
+						id, tag = kBlLeaf, "K01b"
+					}
+					if !vk.Excluded(id) {
 						c.Failf(rt, nil, "verify(%d->%d) [source BlTxID %d, target BlTxID %d, linear branch] succeeded although the target's Merkle tree holds a different transaction "+
 							"at position %d than the chain of the source Alh; %s", st.src, st.tgt, e.tx(st.src).hdr.BlTxID, e.tx(st.tgt).hdr.BlTxID, p, ctx)
 					}
-					vk.CountExcluded(kBlLeaf)
+					vk.CountExcluded(id)
 					knownAt[p] = true
-					c.Label("accepted-contradicting-tree-linear-branch(K01b)")
+					c.Label("accepted-contradicting-tree-linear-branch(" + tag + ")")
 				} else {
 					c.Failf(rt, nil, "CONTRADICTING TREE ACCEPTED: verify(%d->%d) [source BlTxID %d, target BlTxID %d, Merkle branch, lying source header: %v] succeeded although the "+
 						"target's Merkle tree holds a different transaction at position %d than the chain of the source Alh (inclusion / linear-advance must reject); %s",
@@ -457,7 +466,7 @@ func TestEquivocationSessions(t *testing.T) {
 			c.Label("merkle-branch-step")
 		}
 		if conflictKnown {
-			c.Label("observable-equivocation(K01b)")
+			c.Label("observable-equivocation(K01b/K01h)")
 		}
 		if mode != "none" {
 			c.Label("lagging")
